@@ -75,6 +75,25 @@ def run(ctx):
         ctx.count(f"interp:n<={10 * ((n + 9) // 10)}")
         lines.append(f"scatinterp {n} {frac_s(PI)} {qmat(M.real)} {qmat(M.imag)} {ql([F(float(x)) for x in inc])} {ql([F(float(x)) for x in out])}")
         meta.append(("interp", got, cj, np.abs(M).max() + 1))
+        # ---- the same matrix in another container: single precision (the small integers are exact in it), Fortran order, integers,
+        #      scalar and 0-d queries.  All denote the same matrix and the same angles.
+        variants = [("fortran order", np.asfortranarray(Mc)), ("complex64" if cplx else "float32", Mc.astype(np.complex64 if cplx else np.float32))]
+        # (nested lists are not ndarrays: `interpolate_matrix` documents an ndarray and refuses them on the unchanged tree — not tried)
+        if not cplx:
+            variants.append(("int64", Mc.astype(np.int64)))
+        for vname_, Mv in variants:
+            ctx.count("interp_container:" + vname_.split()[0])
+            try:
+                gv = np.asarray(scat.interpolate_matrix(Mv)(inc, out), dtype=complex)
+            except Exception as e:
+                ctx.violate(f"interpolate_matrix raised {type(e).__name__} for the matrix given as {vname_}", dict(cj, container=vname_), {"kind": "interp_container"})
+                continue
+            if np.abs(gv - got).max() > 1e-6 * (np.abs(M).max() + 1):
+                ctx.violate(f"interpolate_matrix gives other values (max difference {np.abs(gv - got).max():.3g}) for the same matrix given as {vname_}", dict(cj, container=vname_),
+                            {"kind": "interp_container"})
+        g0 = complex(np.asarray(scat.interpolate_matrix(Mc)(float(inc[15]), np.array(out[15]))))
+        if abs(g0 - got[15]) > 1e-12 * (np.abs(M).max() + 1):
+            ctx.violate("interpolate_matrix: a scalar / 0-d query differs from the same query inside an array", cj, {"kind": "interp_container"})
         # ---- oracle
         # nodes reproduce the entries [out index j][inc index i]
         for q in range(6):
@@ -200,6 +219,12 @@ def run(ctx):
             j = [int(np.argmin(np.abs(th - x))) for x in q_out]
             wantv = mm[k0][0][j, i]
             ctx.count("single_frequency_data")
+            with warnings.catch_warnings():
+                warnings.simplefilter("ignore")
+                one32 = scat.ScatFromData.from_dict(fspec, {k: mm[k][:1].astype(np.complex64) for k in keys})
+                r32 = one32(q_inc, q_out, float(fr[0]))
+            if np.abs(r32[k0] - wantv).max() > 1e-5 * np.abs(mm[k0]).max():
+                ctx.violate("ScatFromData holding single-precision complex data does not return its data", cj, {"kind": "scat_from_data"})
             if np.abs(r1[k0] - wantv).max() > 1e-9 * np.abs(mm[k0]).max() or np.abs(r2[k0] - wantv).max() > 1e-9 * np.abs(mm[k0]).max():
                 ctx.violate("ScatFromData with a single sampled frequency does not return its data", cj, {"kind": "scat_from_data"})
     answers = ctx.drive(lines) if ctx.lean.driver_ok and not ctx.oracle_only else []
